@@ -36,6 +36,7 @@ def history(arg):
                     used.add(x['f'])
         if used & {'s1', 's2'}:
             used.add('h1')
+        used |= {'pch_' + d['name'] for d in decls if d.get('pch')}
         for f in sorted(used):
             ev.append(r.touch(f=f))
             ev.append(r.build('all'))
@@ -51,6 +52,34 @@ def history(arg):
         r.close()
 
 
+def directed():
+    """hand-written scripts for the feature combinations the generator
+    reaches only rarely: a precompiled header next to generated headers, a
+    generated header produced from another target's output"""
+    B = dict(kind='', name='', srcs=[], libs=[], ins=[], nouts=1,
+             always=False, deps=[], dist=True, pch=False)
+
+    def F(f):
+        return {'f': f, 't': ''}
+
+    def T(t):
+        return {'f': '', 't': t}
+    out = []
+    for kind in ('exe', 'slib', 'shlib'):
+        out.append([
+            dict(B, kind='step', name='t1', ins=[F('d1')], nouts=2),
+            dict(B, kind=kind, name='t2', srcs=[F('s1')], ins=[T('t1')],
+                 pch=True),
+            dict(B, kind='exe', name='t3', srcs=[F('s2')], pch=True)])
+        out.append([
+            dict(B, kind='copy', name='t1', ins=[F('d1')]),
+            dict(B, kind='step', name='t2', ins=[T('t1'), F('s3')], nouts=2),
+            dict(B, kind=kind, name='t3', srcs=[T('t2')], ins=[T('t2')],
+                 pch=True),
+            dict(B, kind='default', name='t4', deps=['t3'])])
+    return out
+
+
 def strip(ev):
     return {k: v for k, v in ev.items() if k != 'out'}
 
@@ -60,6 +89,7 @@ def main(argv):
     n = 40 if ck.quick else 700
     scripts, g = sg.generate(n, ck.seed, 6 if ck.quick else 8)
     ck.add_model(g, 'Script_Gen: %d scripts' % len(scripts))
+    scripts = directed() + scripts
     jobs = [(s, b) for s in scripts for b in ('make', 'ninja')]
     hists = pmap(history, jobs)
     traces = [{'id': i + 1, 'events': [strip(e) for e in h]}
